@@ -197,6 +197,28 @@ def _run_cvx(ctx, spec, rng):
     dev = float(np.abs(np.asarray(got) - want).max()) if ok_shape and got is not None else float("inf")
     ctx.check("O4:cvxpy-value", None, dev=dev, tol=1e-12, sig=(kind, n, len(s)), mech="partial_transpose:cvxpy-value", detail={"kind": kind, "d": d, "s": s})
     ctx.check("O4:cvxpy-affine", bool(expr.is_affine()), sig=(kind,), mech="partial_transpose:cvxpy-not-affine", detail={"kind": kind})
+    # history: the SAME Variable object transposed again on the same subsystems under other factorisations of its size, and with a new value
+    alts = [f for f in gen.factorisations(big, n) if list(f) != list(d)]
+    for d2 in alts[:3]:
+        if any(i >= len(d2) for i in s):
+            continue
+        e2 = ctx.call(partial_transpose, var, list(s), list(d2))
+        if e2 is FAILED:
+            continue
+        w2 = ref.partial_transpose(val, s, d2, d2)
+        g2 = e2.value
+        dev2 = float(np.abs(np.asarray(g2) - w2).max()) if tuple(e2.shape) == w2.shape and g2 is not None else float("inf")
+        ctx.check("O4:cvxpy-value", None, dev=dev2, tol=1e-12, sig=(kind, "same-variable-other-dims", len(d2)), mech="partial_transpose:cvxpy-value[same-variable-other-dims]",
+                  detail={"kind": kind, "first_dims": d, "dims": list(d2), "s": s})
+    if kind in ("plain", "complex"):
+        val2 = val[::-1, ::-1].copy() * 2
+        var.value = val2
+        e3 = ctx.call(partial_transpose, var, list(s), list(d))
+        if e3 is not FAILED:
+            w3 = ref.partial_transpose(val2, s, d, d)
+            dev3 = float(np.abs(np.asarray(e3.value) - w3).max()) if tuple(e3.shape) == w3.shape and e3.value is not None else float("inf")
+            ctx.check("O4:cvxpy-value", None, dev=dev3, tol=1e-12, sig=(kind, "same-variable-new-value"), mech="partial_transpose:cvxpy-value[same-variable-new-value]",
+                      detail={"kind": kind, "d": d, "s": s})
 
 
 def _run_suite(ctx, spec, rng):
